@@ -7,7 +7,23 @@ LEAN = os.path.join(VERIF, "lean")
 HARNESS = os.path.join(VERIF, "harness")
 OUT = os.path.join(VERIF, "out")
 EVID = os.path.join(VERIF, "evidence")
-REPO = "/repo"
+REPO = os.environ.get("VERIF_REPO", "/repo").rstrip("/") or "/repo"
+if REPO != "/repo":
+    # testing the machinery against a scratch copy/worktree of the repository: use a private copy of
+    # the harness crate whose path dependencies point there (never used by the registered checks)
+    _alt = os.path.join(OUT, "harness_alt", hashlib.sha1(REPO.encode()).hexdigest()[:10])
+    if not os.path.exists(os.path.join(_alt, "Cargo.toml")):
+        os.makedirs(_alt, exist_ok=True)
+        for _n in ("src", ".cargo"):
+            if os.path.exists(os.path.join(_alt, _n)):
+                shutil.rmtree(os.path.join(_alt, _n))
+            shutil.copytree(os.path.join(HARNESS, _n), os.path.join(_alt, _n))
+    else:
+        shutil.rmtree(os.path.join(_alt, "src"))
+        shutil.copytree(os.path.join(HARNESS, "src"), os.path.join(_alt, "src"))
+    open(os.path.join(_alt, "Cargo.toml"), "w").write(open(os.path.join(HARNESS, "Cargo.toml")).read().replace('"/repo/', '"%s/' % REPO))
+    HARNESS = _alt
+    EVID = os.path.join(OUT, "evidence_alt")     # never overwrite the real evidence
 DRV = os.path.join(LEAN, ".lake", "build", "bin", "ccdrv")
 
 ALLOWED_AXIOMS = {"propext", "Classical.choice", "Quot.sound"}
@@ -140,7 +156,8 @@ def harness_build(cfg):
         env["RUSTFLAGS"] = BASE_RUSTFLAGS + " " + extra
     lock = os.path.join(HARNESS, "Cargo.lock")
     if not os.path.exists(lock):
-        shutil.copy(os.path.join(REPO, "Cargo.lock"), lock)
+        src = os.path.join(REPO, "Cargo.lock")
+        shutil.copy(src if os.path.exists(src) else "/repo/Cargo.lock", lock)
     rc, out = run(cmd, cwd=HARNESS, env=env, timeout=3600)
     binp = os.path.join(tdir, prof, "cch")
     return rc == 0 and os.path.exists(binp), binp, out
@@ -185,22 +202,30 @@ def disagree(impl_bin, header, ops):
     return d, a, b
 
 
-def shrink(impl_bin, header, ops, idx):
-    """Greedy line-removal shrink keeping 'some disagreement exists'."""
+def shrink(impl_bin, header, ops, idx, budget_s=45.0):
+    """ddmin-style shrink keeping 'model and implementation disagree somewhere'.
+    First cut everything after the first disagreement, then remove chunks of halving size."""
+    t0 = time.time()
     ops = ops[: max(0, idx - len(header)) + 1]
-    changed = True
-    budget = 400
-    while changed and budget > 0:
-        changed = False
-        i = len(ops) - 2
-        while i >= 0 and budget > 0:
-            cand = ops[:i] + ops[i + 1:]
-            budget -= 1
-            d, a, b = disagree(impl_bin, header, cand)
-            if d is not None and a is not None and b is not None:
+
+    def bad(cand):
+        d, a, b = disagree(impl_bin, header, cand)
+        return d is not None and a is not None and b is not None
+
+    n = max(1, len(ops) // 2)
+    while n >= 1 and time.time() - t0 < budget_s:
+        i = 0
+        removed = False
+        while i < len(ops) - 1 and time.time() - t0 < budget_s:
+            cand = ops[:i] + ops[min(i + n, len(ops) - 1):]
+            if len(cand) < len(ops) and bad(cand):
                 ops = cand
-                changed = True
-            i -= 1
+                removed = True
+            else:
+                i += n
+        if n == 1 and not removed:
+            break
+        n = n // 2 if n > 1 else (1 if removed else 0)
     return ops
 
 
